@@ -1,9 +1,11 @@
 SPECIFICATION Spec
 CONSTANTS MaxPages = 4
- EndAt = "lastpage"
+ EndAt = "data"
  Lens = {1,2,4}
  Chunk = 4
+ Read = 2
+ BackUpRule = "begin"
+ HandOver = "lastread"
 INVARIANT Terminates
-INVARIANT FindsTheRightPage
-INVARIANT FirstPageHandOver
+INVARIANT SubmitsTheRightPage
 CHECK_DEADLOCK FALSE
